@@ -49,7 +49,7 @@ func genInt(r *prng) string {
 }
 
 func genDec(r *prng) string {
-	return pick(r, []string{"0.5", "3.25", "12.75", "164.5962", "0.125", "2.5", "100.5", "7.0625"})
+	return pick(r, []string{"0.5", "3.25", "12.75", "0.125", "2.5", "100.5", "7.0625", "1024.5"}) // dyadic: exact in float32 and float64
 }
 
 func genDoc(r *prng) *docInfo {
